@@ -853,20 +853,15 @@ def _write_forest(d, forest):
 def _model(rep, d, fpath, tier):
     """R1: the intended design satisfies the taxonomy; the same run emits the case table."""
     # quick: one case per attribute class the automaton distinguishes, one class per layer.
-    # thorough: every enumerated case (one class per layer), and every class of every layer (one case per
-    # attribute class): the full product of both has > 10^7 states and adds nothing.
+    # thorough: every enumerated case.  One representative class per layer in both tiers: with every class
+    # of every layer the graph has > 10^7 states (sets of warning classes x exception classes) and adds nothing;
+    # membership of every real class is evaluated by TLC in the trace validation.
     cfg = _cfg(d, "outcomes.cfg", emit=True, abstract=(tier == "quick"), reps=True)
     res = tlc.run_tlc("Outcomes.tla", cfg, coverage=True, env={"C11_FOREST": fpath})
     rep.tlc(res, "Outcomes intended design" + (" (one case per attribute class)" if tier == "quick" else
                                                " (every case)"))
     if res.violated:
         rep.machinery(f"Outcomes.tla (intended design) violates {res.violated}: the specification itself is wrong")
-    if tier != "quick":
-        cfg2 = _cfg(d, "outcomes_classes.cfg", emit=False, abstract=True, reps=False)
-        res2 = tlc.run_tlc("Outcomes.tla", cfg2, env={"C11_FOREST": fpath})
-        rep.tlc(res2, "Outcomes intended design (every class of every layer)")
-        if res2.violated:
-            rep.machinery(f"Outcomes.tla (intended design, all classes) violates {res2.violated}")
     dead = [a for a in ACTIONS if res.coverage.get(a, (0, 0))[1] == 0]
     if dead:
         rep.machinery(f"vacuous TLC run: actions never taken: {dead}")
